@@ -26,6 +26,8 @@ RULE = (
     'against the bare model on Hypothesis-generated linear systems. Oracle: a linker reference machine written from the '
     'statement (call order pre-hook / selected submodels in selected order / post-hook per iteration; solved only if '
     'every check variable everywhere moved by < tol; one status on linker and selected submodels; selected iteration '
+    'Submodels without endogenous variables or with an edited instance-level `endogenous` list (what an offset copies); '
+    'linker.solve(start, end) against the loop of solve_t on a twin over every range incl. empty ones. '
     'counts = linker count; unselected submodels untouched and never evaluated). Non-trivial: >= 2 submodels with a '
     'proper subset or non-default order selected, or the deciding pass moved some variable by an amount in '
     '[tol, sqrt(tol)). Distinct = distinct case JSON.'
